@@ -50,9 +50,43 @@ void prim_case(size_t n, bool fixed_grid = false) {
     if (!(is == s)) E.fail(k + "identity-equal", "structure", "IdentityOperator result != operand");
   }
 }
+// the same operator objects applied alternately on two grids with independent symbolic points (same interval indices,
+// different midpoints): results must not depend on what was transformed before
+template <size_t d, size_t o>
+void two_grids_case(size_t n) {
+  auto &E = Engine::get();
+  auto g = gridvars(n, "g"), h = gridvars(n, "h");
+  Grid<Real> G(g), H(h);
+  Real x = Real::var("x");
+  auto s1 = mkspline<o>(G, 0, n, "c"), s2 = mkspline<o>(H, 0, n, "e");
+  X<d> xop;
+  Dx<d> dop;
+  auto check = [&](const std::string &k, const Spline<Real, o> &s, const std::vector<Real> &pts) {
+    auto xs = xop * s;
+    auto ds = dop * s;
+    auto cs = (X<d>{} * Dx<d>{} + IdentityOperator{}) * s;
+    for (size_t gi = 0; gi + 1 < n; gi++) {
+      Poly p = piece(s, pts, gi), dp = p, xp = p;
+      for (size_t i = 0; i < d; i++) dp = pderiv(dp);
+      for (size_t i = 0; i < d; i++) xp = pmulx(xp);
+      Poly xdp = dp;
+      for (size_t i = 0; i < d; i++) xdp = pmulx(xdp);
+      E.prove(k + "/X/iv" + std::to_string(gi), sym::eq(piece_at(xs, pts, gi, x), peval(xp, x)));
+      E.prove(k + "/Dx/iv" + std::to_string(gi), sym::eq(piece_at(ds, pts, gi, x), peval(dp, x)));
+      E.prove(k + "/XDx+I/iv" + std::to_string(gi), sym::eq(piece_at(cs, pts, gi, x), peval(padd(xdp, p), x)));
+    }
+  };
+  check("first-grid", s1, g);
+  check("second-grid", s2, h);
+  check("first-grid-again", s1, g);
+  check("second-grid-again", s2, h);
+}
+
 template <size_t d, size_t o>
 void add(std::vector<Case> &cases) {
   for (size_t n = 2; n <= MAXN; n++) cases.push_back({"prim/d" + std::to_string(d) + "/o" + std::to_string(o) + "/n" + std::to_string(n), [=] { prim_case<d, o>(n); }});
+  if (d <= 3 && o <= 2)
+    for (size_t n = 2; n <= 3; n++) cases.push_back({"prim-two-grids/d" + std::to_string(d) + "/o" + std::to_string(o) + "/n" + std::to_string(n), [=] { two_grids_case<d, o>(n); }});
   if constexpr (o > 0)
     add<d, o - 1>(cases);
   else if constexpr (d > 0)
